@@ -31,8 +31,39 @@ def innermost_athlib_frame(tb):
     return found or ('<outside athlib>', '')
 
 
+# The AMBIENT pass (vlib.run starts it as a child process: python -O, another time zone, VERIF_AMBIENT=1): every library call
+# made through call() runs under settings of the surrounding program that are normally left at their defaults - the decimal
+# module's working precision and rounding mode, warnings turned into errors - and must give the same answers all the same.
+AMBIENT = os.environ.get('VERIF_AMBIENT') == '1'
+_AMB_CTX = None
+_AMB_N = 0
+
+
+def _ambient_context():
+    import decimal
+    global _AMB_CTX, _AMB_N
+    if _AMB_CTX is None:
+        _AMB_CTX = [decimal.Context(prec=6, rounding=decimal.ROUND_FLOOR), decimal.Context(prec=3, rounding=decimal.ROUND_UP)]
+    _AMB_N += 1
+    return _AMB_CTX[_AMB_N % 2]
+
+
 def call(f, *a, **k):
     """Run f; return ('ret', value) or ('exc', ExceptionTypeName, message, (func, line))."""
+    if AMBIENT:
+        import decimal
+        import warnings
+        old = decimal.getcontext()
+        decimal.setcontext(_ambient_context().copy())
+        try:
+            with warnings.catch_warnings():
+                warnings.simplefilter('error')
+                try:
+                    return ('ret', f(*a, **k))
+                except Exception as e:
+                    return ('exc', type(e).__name__, str(e)[:200], innermost_athlib_frame(e.__traceback__))
+        finally:
+            decimal.setcontext(old)
     try:
         return ('ret', f(*a, **k))
     except Exception as e:
